@@ -884,6 +884,12 @@ fn execute_faulted(scn: &RegScenario, mask: Mask) -> Result<RegResult, Violation
                         continue;
                     }
                     if !reaches_fired(&scn.nodes, *t, &fired_nodes) {
+                        fail(mask, "C05", "fault.identity_without_entry", || {
+                            format!(
+                                "event {}: {} was registered successfully (id {}) but the registry holds no entry for it (unwound earlier: {:?})",
+                                e, t.show(), id, fired_nodes
+                            )
+                        })?;
                         fail(mask, "C11", "fault.handed_out_id_without_definition", || {
                             format!(
                                 "event {}: {} got id {} which has no definition, although it cannot reach a node whose type_info() unwound (unwound: {:?})",
